@@ -162,7 +162,7 @@ Proof.
   f_equal. f_equal. unfold offset. apply (data_window_in_tract s k j e tr W). exact Hin.
 Qed.
 
-(* the code as it is: carved-out classes, non-empty tract and request *)
+(* the code before fix e1cfae8 (fx = false): carved-out classes, non-empty tract and request *)
 Lemma read_rs_reconstruct_eq : forall blank fail o w,
   memN (nth j (nth k (s_hosts s) []) 0) blank || memN (nth j (nth k (s_hosts s) []) 0) fail = true ->
   let hosts := nth k (s_hosts s) [] in
@@ -186,7 +186,7 @@ Proof.
   - rewrite HeL. lia.
 Qed.
 
-(* with the F15 patch: every offset and length for which something has to be fetched *)
+(* on the current code (fx = true, fix e1cfae8): every offset and length for which something has to be fetched *)
 Lemma read_rs_reconstruct_eq_fixed : forall blank fail o w,
   memN (nth j (nth k (s_hosts s) []) 0) blank || memN (nth j (nth k (s_hosts s) []) 0) fail = true ->
   let hosts := nth k (s_hosts s) [] in
